@@ -361,18 +361,21 @@ def run_two_requesters(ctx: Ctx, scratch: str):
     from harness import sched as S
     from harness.props import c02
     c02.EDGES = c02.D.doc_edges(ctx)
-    sc = {"n": 1, "dups": [0], "block": [], "limit": 1, "actors": 2, "run": False}
     total = 0
-    for kind in ("mem", "sqlite"):
-        n = 0
-        for schedule, out in S.explore(lambda p: c02.run_one(kind, scratch, sc, p), max_preemptions=2, max_runs=400 if ctx.thorough else 120,
-                                       preempt_at=c02.critical):
-            n += 1
-            if out["verdict"]:
-                ctx.violation(f"two-requesters:{kind}", f"{kind}: two requesters on one invocation: {out['verdict']}",
-                              {"kind": "two_requesters", "backend": kind, "scenario": sc, "schedule": schedule, "observed": out})
-                break
-        total += n
+    for sc, runs in (({"n": 1, "dups": [0], "block": [], "limit": 1, "actors": 2, "run": False}, 400 if ctx.thorough else 120),
+                     # a holder on its way to RUNNING, the pending-recovery task taking the invocation back, another runner claiming it
+                     ({"n": 1, "dups": [], "block": [], "limit": 1, "actors": 2, "run": True, "recover": True}, 1500 if ctx.thorough else 1200)):
+        for kind in ("mem", "sqlite"):
+            if sc.get("recover") and kind == "mem" and not ctx.thorough:
+                continue
+            n = 0
+            for schedule, out in S.explore(lambda p: c02.run_one(kind, scratch, sc, p), max_preemptions=2, max_runs=runs, preempt_at=c02.critical):
+                n += 1
+                if out["verdict"]:
+                    ctx.violation(f"two-requesters:{kind}", f"{kind}: requesters racing on one invocation: {out['verdict']}",
+                                  {"kind": "two_requesters", "backend": kind, "scenario": sc, "schedule": schedule, "observed": out})
+                    break
+            total += n
     ctx.count(total, total)
     ctx.notes["two_requesters"] = {"schedules": total, "bound": "DFS <= 2 pre-emptions around the transition"}
 
